@@ -148,6 +148,8 @@ def execute(sc):
     nontrivial = judged > 0 and (applied > 0 or any(o.get('last_mtime') is not None or o.get('sub') for o in sc.get('ops', [])))
     counters['mutations_applied'] = applied
     _res_faults = applied_kinds
+    if seam.stats.get('leaked_fds'):
+        violations.append(viol('verify.descriptor-leak', '%d file descriptor(s) opened by the verification were never closed' % seam.stats['leaked_fds'], sig='fd'))
     res = mk_result([seam], violations, nontrivial, outcome=outcome, dontcare=zones,
                     counters=counters, ops=len(sc.get('ops', [])))
     for k_, v_ in _res_faults.items():
